@@ -124,16 +124,34 @@ func (t *Tree) LongestPath() []*MHeader {
 	return rev
 }
 
-// IsAncestor reports whether a is b or an ancestor of b through stored parent links
-// (parent links as they exist now: a header whose parent arrived later is still linked
-// by hash, which is what SQL joins on previous_block see).
-func (t *Tree) IsAncestor(a, b *MHeader) bool {
-	for m := b; m != nil; m = t.ByHash[m.Prev] {
+// AncArr reports whether a is b or an ancestor of b through arrival-time parent links (a
+// header whose parent was unknown when it arrived has no parent: it is an orphan root).
+func (t *Tree) AncArr(a, b *MHeader) bool {
+	for m := b; m != nil; m = m.Parent {
 		if m == a {
 			return true
 		}
-		if m.Height <= a.Height && m != a {
-			// heights strictly decrease only along arrival-time parents; keep walking by hash.
+	}
+	return false
+}
+
+// AncHash is the same relation through hash links as they exist now (a parent that arrived
+// after its child is linked), which is what SQL joins on previous_block see.
+func (t *Tree) AncHash(a, b *MHeader) bool {
+	for m, k := b, 0; m != nil && k <= len(t.Order); m, k = t.ByHash[m.Prev], k+1 {
+		if m == a {
+			return true
+		}
+	}
+	return false
+}
+
+// LateParent reports whether some header on b's hash-linked ancestry arrived after its child
+// (then arrival links and hash links disagree and read oracles accept either view).
+func (t *Tree) LateParent(b *MHeader) bool {
+	for m, k := b, 0; m != nil && k <= len(t.Order); m, k = t.ByHash[m.Prev], k+1 {
+		if m.Parent == nil && t.ByHash[m.Prev] != nil {
+			return true
 		}
 	}
 	return false
